@@ -114,7 +114,8 @@ HalfLattice(d) == [1..d -> 0..2]
 CornerLattice(d) == [1..d -> {0, 2}]
 \* a cell is valid if its reference map preserves orientation (simplex: constant Jacobian; hypercube: at the half lattice)
 CellValid(fam, d, P) == IF fam = "simplex" THEN JacDet0(fam, d, P) > 0 ELSE \A t \in HalfLattice(d) : CubeJacHalf(d, P, t) > 0
-CellPositive(fam, d, P) == IF fam = "simplex" THEN JacDet0(fam, d, P) > 0 ELSE \A t \in CornerLattice(d) : CubeJacHalf(d, P, t) > 0
+\* positive orientation at every corner (at a corner the half-lattice value is 2^(d(d-1)) times CubeJacDetAt, see RefCellSanity)
+CellPositive(fam, d, P) == IF fam = "simplex" THEN JacDet0(fam, d, P) > 0 ELSE \A c \in 0..(Pow2(d) - 1) : CubeJacDetAt(d, P, c) > 0
 
 \* scaled volume of a cell: simplex d! * vol (2A, 6V); quadrilateral 2A (shoelace, exact for any
 \* straight-edged quad); hexahedron 12V, exact for the trilinear cell: V = 1/3 * sum over the six bilinear
